@@ -79,7 +79,7 @@ fn c12_new_accepts_exactly() {
     assert!(r.is_ok() == format_allows(b));
     kani::cover!(r.is_ok() && le32(b, 0) == 0);
     kani::cover!(r.is_ok() && le32(b, 0) == 1);
-    kani::cover!(r.is_ok() && le32(b, 0) == 2 && b.len() > 16);
+    kani::cover!(r.is_ok() && le32(b, 0) == 2 && b.len() == L);
     kani::cover!(r.is_err() && b.len() >= 4 && le32(b, 0) == u32::MAX);
     kani::cover!(matches!(r, Err(DecodingError::NonMonotonicOffsets(_))) || L < 24);
     kani::cover!(matches!(r, Err(DecodingError::NonMonotonicTags(_))));
